@@ -66,7 +66,7 @@ func GenHistory(wt Weights) *rapid.Generator[History] {
 						op.Key = rapid.SampledFrom([]string{"k", "k", "k", "k2"}).Draw(t, "key")
 					}
 				}
-				op.WKind = rapid.SampledFrom([]string{"plain", "flusher", "flusherr"}).Draw(t, "wkind")
+				op.WKind = rapid.SampledFrom([]string{"plain", "flusher", "flusherr", "flushboth"}).Draw(t, "wkind")
 				if wt.Faults && rapid.IntRange(0, 2).Draw(t, "faulty") == 0 {
 					if rapid.Bool().Draw(t, "wfault") {
 						op.FailWrite = rapid.IntRange(1, 4).Draw(t, "failwrite")
@@ -157,7 +157,7 @@ func GenEpisodes(wt Weights) *rapid.Generator[History] {
 		}
 		natt := 0
 		arrive := func(kind, key string) int {
-			op := Op{Kind: "arrive", AKind: kind, Key: key, WKind: rapid.SampledFrom([]string{"plain", "flusher", "flusherr"}).Draw(t, "wkind")}
+			op := Op{Kind: "arrive", AKind: kind, Key: key, WKind: rapid.SampledFrom([]string{"plain", "flusher", "flusherr", "flushboth"}).Draw(t, "wkind")}
 			if wt.Faults && kind != KOut && rapid.IntRange(0, 3).Draw(t, "faulty") == 0 {
 				if rapid.Bool().Draw(t, "wfault") {
 					op.FailWrite = rapid.IntRange(1, 3).Draw(t, "failwrite")
@@ -400,7 +400,7 @@ func GenLines(wt Weights) *rapid.Generator[History] {
 		for s := 0; s < nshells; s++ {
 			lines(4) // while detached (or while the previous shell is gone)
 			kind := rapid.SampledFrom([]string{KIn, KIn, KIO}).Draw(t, "kind")
-			op := Op{Kind: "arrive", AKind: kind, Key: "k", WKind: rapid.SampledFrom([]string{"plain", "flusher", "flusherr"}).Draw(t, "wkind")}
+			op := Op{Kind: "arrive", AKind: kind, Key: "k", WKind: rapid.SampledFrom([]string{"plain", "flusher", "flusherr", "flushboth"}).Draw(t, "wkind")}
 			switch rapid.IntRange(0, 3).Draw(t, "fault") {
 			case 0:
 				op.FailWrite = rapid.IntRange(1, 5).Draw(t, "failwrite")
